@@ -217,6 +217,54 @@ theorem rrsigData_eq_rfc (t : CanonTable) (sig : RRSig) (origin : Option Name) (
   simp only [derelativizeD, hs, hr, if_true, nameWireFile, nameDigestable, nameWireNoFile,
       hc1, hc2, if_false, hown, habs, hd, hfin]
 
+/-- General form: relative signer and owner names are completed by the origin first (`derelativize`), then the
+signing input is RFC 4034 §3.1.8.1 over the completed names.  `hw`: the RRSIG RDATA itself must be renderable
+with the completed signer as origin (`rrsig.to_wire(origin=signer)`, of which only the first 18 octets are used). -/
+theorem rrsigData_eq_rfc_rel (t : CanonTable) (sig : RRSig) (origin : Option Name) (rrname : Name)
+    (rdtype rdclass : Nat) (rdatas : List Rdata) (ds : List Bytes) (signer owner : Name) (w : Bytes)
+    (hs : derelativizeD sig.signer origin = .ok signer) (hsa : isAbs signer = true)
+    (hw : nameWireFile sig.signer (some signer) false = .ok w)
+    (hr : derelativizeD rrname origin = .ok owner) (hoa : isAbs owner = true)
+    (hl : sig.labels ≤ Rfc.labelCount owner)
+    (hwild : owner.head? = some wildLabel → sig.labels = Rfc.labelCount owner)
+    (hd : mapExcept (fun rd => toDigestable t rdclass rdtype rd origin) rdatas = .ok ds) :
+    rrsigData t sig origin rrname rdtype rdclass rdatas =
+      .ok (Rfc.sigData sig signer owner rdtype rdclass (insSort bytesLe ds)) := by
+  have hlen := length_of_abs owner hoa
+  have hcount : Rfc.labelCount owner ≤ owner.dropLast.length := by
+    unfold Rfc.labelCount; omega
+  have hc1 : ¬ (owner.head? = some wildLabel ∧ (sig.labels : Int) ≠ (owner.length : Int) - 2) := by
+    rintro ⟨h1, h2⟩
+    have := hwild h1
+    unfold Rfc.labelCount at this
+    simp only [wildLabel] at h1
+    simp only [h1, if_true] at this
+    have hpos : owner.dropLast.length ≥ 1 := by
+      cases hrr : owner with
+      | nil => rw [hrr] at h1; simp at h1
+      | cons a b =>
+        cases b with
+        | nil =>
+          rw [hrr] at h1 hoa; simp at h1; subst h1
+          simp [isAbs] at hoa
+        | cons _ _ => simp
+    omega
+  have hc2 : ¬ ((owner.length : Int) - 1 < (sig.labels : Int)) := by omega
+  have hown := owner_eq_sigOwner owner sig.labels hoa hl hwild
+  have habs := isAbs_sigOwner owner sig.labels hoa
+  have hfin : (Except.ok (rrsigHeader sig ++ toWire (lowerName signer) ++
+          List.flatMap (rrRecord (toWire (lowerName (Rfc.sigOwner owner sig.labels)))
+              (be16 rdtype ++ be16 rdclass ++ be32 sig.originalTtl)) (insSort bytesLe ds)) : Except DErr Bytes) =
+      Except.ok (Rfc.sigData sig signer owner rdtype rdclass (insSort bytesLe ds)) := by
+    have hf : rrRecord (toWire (lowerName (Rfc.sigOwner owner sig.labels)))
+        (be16 rdtype ++ be16 rdclass ++ be32 sig.originalTtl) =
+        Rfc.rr (Rfc.sigOwner owner sig.labels) rdtype rdclass sig.originalTtl := by
+      funext rd; exact rrRecord_eq _ _ _ _ rd
+    rw [hf]
+    simp [Rfc.sigData, rrsigHeader, List.append_assoc]
+  unfold rrsigData
+  simp only [hs, hw, hr, nameDigestable, nameWireNoFile, hsa, if_true, hc1, hc2, if_false, hown, habs, hd, hfin]
+
 /-- outside the accepted label counts the code raises ValidationFailure -/
 theorem rrsigData_rejects (t : CanonTable) (sig : RRSig) (origin : Option Name) (rrname : Name)
     (rdtype rdclass : Nat) (rdatas : List Rdata)
